@@ -84,6 +84,13 @@ TYPES = [
     ('CatchainConfig', (), CF, 'CatchainConfig', None),
 ]
 
+# configuration parameters (beyond the property's list: validator sets and catchain config are ConfigParam 28 / 32..37); every
+# ConfigParam N the library has a class for
+CFG = [0, 1, 2, 3, 4, 5, 6, 7, 8, 9, 10, 11, 12, 13, 14, 15, 16, 17, 18, 20, 21, 22, 23, 24, 25, 28, 29, 31, 32, 33, 34, 35, 36, 37, 44, 71, 72,
+       73, 79, 81, 82]
+for _n in CFG:
+    TYPES.append(('ConfigParam', (_n,), CF, f'ConfigParam{_n}', None))
+
 _CASES = {}
 
 
@@ -91,7 +98,8 @@ def cases_of(tname, targs):
     key = (tname, targs)
     if key in _CASES:
         return _CASES[key]
-    own = T.own_cases(tname, targs, cap=40)
+    import os
+    own = T.own_cases(tname, targs, cap=200 if os.environ.get('VERIF_TIER') == 'thorough' else 40)
     nvar = T.max_var_n(tname, targs)
     out = []
     seen_cons = set()
